@@ -25,7 +25,7 @@ def macro_text(P, name):
     return None
 
 
-def rec_fields_assigned(f, record, exclude_roots=("src", "old", "olddist", "oimattr", "oimtg", "oimi", "oldi")):
+def rec_fields_assigned(f, record, exclude_roots=("src", "old", "olddist", "oimattr", "oimtg", "oimi", "oldi"), plain_only=False):
     """fields of `record` assigned anywhere in f through a base that is not one of the source variables; a whole-record
     memcpy/memset into a pointer to that record sets every field"""
     out = {}
@@ -37,7 +37,7 @@ def rec_fields_assigned(f, record, exclude_roots=("src", "old", "olddist", "oima
         return n["n"] if n is not None and n["k"] == "Ref" else None
     for n in f.walk():
         a = assigned(n)
-        if a:
+        if a and not (plain_only and a[1] != "="):
             t = strip(a[0])
             x = t
             while x is not None and x["k"] in ("Member", "Sub"):
@@ -61,8 +61,9 @@ def rec_fields_assigned(f, record, exclude_roots=("src", "old", "olddist", "oima
     return out, everything
 
 
-def fields_assigned(f, basevars):
-    """first-level fields F assigned (or passed by address / as destination) through `v->F...` for v in basevars"""
+def fields_assigned(f, basevars, plain_only=False):
+    """first-level fields F assigned (or passed by address / as destination) through `v->F...` for v in basevars.
+    plain_only: count `=` stores only (an increment of a counter in a helper is a use of the field, not a copy)"""
     out = {}
     def note(k, n):
         for v in basevars:
@@ -71,7 +72,7 @@ def fields_assigned(f, basevars):
                 out.setdefault(fld, f.loc(n))
     for n in f.walk():
         a = assigned(n)
-        if a:
+        if a and not (plain_only and a[1] != "="):
             k = lv(a[0])
             if k:
                 note(k, n)
@@ -112,6 +113,7 @@ def dupfield(chk, P, record, owners, unit_of=None, exceptions=None, rule="R-DUPF
     nprim = len(owners) if nprimary is None else nprimary
     expanded = []
     seen_o = set(o[0] for o in owners)
+    named = set(o[0] for o in owners)
     for oi, (fname, vars_) in enumerate(owners):
         expanded.append((fname, vars_, oi < nprim))
         frontier = [(fname, vars_)]
@@ -145,9 +147,9 @@ def dupfield(chk, P, record, owners, unit_of=None, exceptions=None, rule="R-DUPF
             chk.broke("%s: owner function %s vanished" % (rule, fname))
             continue
         before = set(got)
-        for fld, loc in fields_assigned(f, vars_).items():
+        for fld, loc in fields_assigned(f, vars_, plain_only=fname not in named).items():
             got.setdefault(fld, "%s (%s)" % (fname, loc))
-        rf, everything = rec_fields_assigned(f, record)
+        rf, everything = rec_fields_assigned(f, record, plain_only=fname not in named)
         for fld, loc in rf.items():
             got.setdefault(fld, "%s (%s)" % (fname, loc))
         if everything:
